@@ -5,6 +5,7 @@ import sys
 from mc import core, hist, lib
 
 ENGINE = "E1-sweep"
+TICK_EVERY = 5      # every 5th case of every unit is repeated with numpy integer ticks (int64 / int32)
 RULE = ("every base sequence (<=3 notes over 2 pitches x 1-2 channels, with/without a time and a key signature) x "
         "{itself, copy, every insertion order, built through the relative representation, EVERY single-attribute "
         "perturbation: pitch+-1, onset+-1, length+-1, velocity, channel, signature value, signature tick, uniform channel "
